@@ -9,6 +9,12 @@
    which the actor touches shared state through one atomic operation (sync.Map.LoadOrStore / Delete,
    atomic add / load, channel close) or writes a plain field that is only read after the channel
    close that follows.  Purely local computation is merged into the preceding action.
+   Two reads are merged into one action where that loses no behaviour: in FinishOk,
+   [HasFollowers() && !leaderGone()] reads the follower counter and then (only if it was positive) the
+   leader's own context; the counter only grows, so reading it at the time of the context read gives
+   the same value of the conjunction.  The follower's reads of Err and Data after Done is closed are
+   one action (both fields are written before the close, by the entry's owner only - an invariant of
+   the fixed code, [c_data]/[c_err] in ProofsInb.v).
 
    The main step functions model the code WITH the fixes c11_fix_a / c11_fix_b_inbound / c11_fix_b
    applied ([fixed]); [prefix] switches the three repaired branches back to the historical code and
